@@ -35,7 +35,7 @@ RULE = ("random networks (1-8 stations, 0-5 constraints, mixed-sign coefficients
 ASSUMPTIONS = ["theorems are over R with exact arithmetic (cos/sin of deg2rad(phase)); the implementation computes in IEEE doubles",
                "well-formed networks: constraint_matrix rows, magnitudes and constraint_index aligned (C12's subject)",
                "the executable model receives (cos, sin) of each phase angle computed by the harness with math.cos/math.sin(math.radians(.)), independently of the implementation",
-               "C06_three_agree carries the explicit hypothesis that the network tolerances equal the defaults hard-coded in algorithms.utils (open finding utils-hardcoded-tolerances); in linear mode agreement of the algorithm-side check additionally needs non-negative linear sums (open finding linear-negative-schedule)"]
+               "C06_three_agree / C06_three_agree_linear carry the explicit hypothesis that the network tolerances equal the defaults hard-coded in algorithms.utils (open finding utils-hardcoded-tolerances)"]
 TRUSTED_EXTRA = ["numpy semantics of @, np.abs on complex, np.linalg.norm(axis=0), np.tile, broadcasting: modelled by their documented effect, tied by the correspondence only"]
 
 F = fractions.Fraction
@@ -45,7 +45,6 @@ LIMITS = [8, 16, 32, 40, 40, 64, 80, 100, 150, 180.5, 225, 416.6666666666667, 10
 TOLS = [(1e-5, 1e-7)] * 12 + [(1e-9, 1e-12), (1e-3, 1e-4), (0.0, 0.0), (2.0 ** -17, 2.0 ** -23), (1e-5, 1e-3),
                              (1e-7, 1e-7), (0.5, 0.0)]
 SIG_TOL = "utils-hardcoded-tolerances"
-SIG_NEG = "linear-negative-schedule"
 
 
 # ------------------------------------------------------------------------------------------
@@ -347,9 +346,7 @@ def finish_cases(spec, A, L, phases, cis, X, T, mapping, mkind, colkinds, impl, 
         amb = False
         if not exact_tie:
             amb = robust(cur, L, vt, rt) is None
-            if lin and robust(cur, L, vt, rt, signed=True) is None:
-                amb = True
-        if robust(cur, L, 1e-5, 1e-7, signed=lin) is None:
+        if robust(cur, L, 1e-5, 1e-7) is None:
             amb = True
         inp = dict(A=A, L=L, phases=phases, vt=spec["vt"], rt=spec["rt"], ctor_default=bool(spec.get("ctor_default")),
                    ovt=ovt, ort=ort, X=X, T=T,
@@ -363,8 +360,6 @@ def finish_cases(spec, A, L, phases, cis, X, T, mapping, mkind, colkinds, impl, 
         why = None if amb else monitor(c)
         if why and why.startswith("[" + SIG_TOL + "]"):
             c["sig"] = SIG_TOL
-        elif why and why.startswith("[" + SIG_NEG + "]"):
-            c["sig"] = SIG_NEG
         out.append(c)
     return out
 
@@ -420,9 +415,36 @@ def crash_case(where, e):
                 coq="", ambiguous=True, nontrivial=False, kind="crash", sig=["crash", where, type(e).__name__])
 
 
+def corpus_cases():
+    """witnesses of fixed findings (corpus/C06/*.json), re-run first on every check"""
+    import glob
+    import json
+    import os
+    from harness.core import ROOT
+    out = []
+    for path in sorted(glob.glob(os.path.join(ROOT, "corpus", "C06", "*.json"))):
+        with open(path) as f:
+            w = json.load(f)
+        inp = w["input"]
+        net = build_network(inp["A"], inp["L"], inp["phases"], inp["vt"], inp["rt"])
+        itf = make_interface(net)
+        A, L, ph = read_back(net)
+        mapping = [(int(i), r) for i, r in inp["mapping"]]
+        impl = run_impl(net, itf, inp["X"], inp["T"], mapping)
+        spec = dict(vt=inp["vt"], rt=inp["rt"])
+        for c in finish_cases(spec, A, L, ph, cis_of(ph), inp["X"], inp["T"], mapping, "corpus",
+                              ["corpus:" + os.path.basename(path)[:-5]], impl):
+            out.append(c)
+    return out
+
+
 def gen_cases(rng, n, tier):
     cases = []
     crashes = 0
+    try:
+        cases.extend(corpus_cases())
+    except Exception as e:  # noqa
+        cases.append(crash_case("corpus", e))
     while len(cases) < n:
         try:
             cases.extend(gen_block(rng))
@@ -487,8 +509,8 @@ def monitor(case):
     lin = currents_exact(rows, cis, X, T, True)
     tie = inp.get("exact_tie")
     want_pha = decide(pha, L, vt, rt, 0) if tie else robust(pha, L, vt, rt)
-    want_lin = decide(lin, L, vt, rt, 0, signed=True) if tie else robust(lin, L, vt, rt, signed=True)
-    want_lin_abs = decide(lin, L, vt, rt, 0) if tie else robust(lin, L, vt, rt)
+    # linear mode on both sides: |sum_i |A_ji| x_i| <= limit + tol, on every schedule
+    want_lin = decide(lin, L, vt, rt, 0) if tie else robust(lin, L, vt, rt)
     P, Ln = impl["pha"], impl["lin"]
     nonneg = all(v >= 0 for r in X for v in r)
     for o in (P, Ln):
@@ -532,21 +554,17 @@ def monitor(case):
             return "network-side linear check accepts a non-negative schedule that the phasor definition rejects"
         if Ln["alg_same"]:
             return "algorithm-side linear check accepts a non-negative schedule that the phasor definition rejects"
-    if nonneg and want_lin is not None and (Ln["net"] != want_lin or Ln["alg_same"] != want_lin):
-        return "linear check (net %s / alg %s) differs from sum|A|x <= limit+tol (%s)" % (Ln["net"], Ln["alg_same"], want_lin)
+    if want_lin is not None and (Ln["net"] != want_lin or Ln["alg_same"] != want_lin):
+        return "linear check (net %s / alg %s) differs from |sum|A|x| <= limit+tol (%s)" % (Ln["net"], Ln["alg_same"], want_lin)
     # the three checkers agree
     if P["alg_same"] != P["net"] and want_pha is not None:
         return "algorithm-side check with the network's tolerances = %s, network-side = %s" % (P["alg_same"], P["net"])
-    if Ln["alg_same"] != Ln["net"] and want_lin is not None and want_lin_abs is not None:
-        if not nonneg and want_lin != want_lin_abs:
-            return "[%s] linear mode, schedule with negative entries: network-side %s, algorithm-side %s" % (
-                SIG_NEG, Ln["net"], Ln["alg_same"])
+    if Ln["alg_same"] != Ln["net"] and want_lin is not None:
         return "linear mode: algorithm-side check = %s, network-side = %s" % (Ln["alg_same"], Ln["net"])
-    for o, name, signed in ((P, "phasor", False), (Ln, "linear", True)):
+    for o, name, cur in ((P, "phasor", pha), (Ln, "linear", lin)):
         if o["alg_default"] != o["alg_same"]:
-            cur = lin if signed else pha
-            wd = robust(cur, L, 1e-5, 1e-7, signed)
-            ws = decide(cur, L, vt, rt, 0, signed) if tie else robust(cur, L, vt, rt, signed)
+            wd = robust(cur, L, 1e-5, 1e-7)
+            ws = decide(cur, L, vt, rt, 0) if tie else robust(cur, L, vt, rt)
             default_net = inp.get("ctor_default") and inp.get("ovt") is None and inp.get("ort") is None
             if default_net and wd is not None and ws is not None and wd != ws:
                 return "default-constructed network (tolerances %g, %g): algorithm-side check (default call) = %s, with the network's tolerances = %s (%s)" % (
@@ -608,13 +626,5 @@ def replay_known(entry):
         p = impl["pha"]
         if p["alg_default"] != p["net"] or p["alg_default"] != p["iface"]:
             return "network %s interface %s algorithm-side %s" % (p["net"], p["iface"], p["alg_default"])
-        return None
-    if entry.get("sig") == SIG_NEG:
-        inp = dict(A=[[1.0]], L=[float(w["limit"])], phases=[0.0], vt=1e-5, rt=1e-7, X=[[w["x"]]], T=1,
-                   mapping=[[0, [w["x"]]]], linear=True)
-        impl = rerun(inp)
-        p = impl["lin"]
-        if p["alg_default"] != p["net"]:
-            return "linear: network %s interface %s algorithm-side %s" % (p["net"], p["iface"], p["alg_default"])
         return None
     return "not re-checked"
